@@ -39,7 +39,7 @@ func materialiseMix(s scenario, w *world) {
 		w.assets[p] = true
 	}
 	for k := 1; k <= s.Lazy; k++ {
-		pages = append(pages, "p"+mixName(s.Names, k, true))
+		pages = append(pages, "page-"+mixName(s.Names, k, true))
 	}
 	var assetImports, pageImports, uses []string
 	for k, n := range assets {
